@@ -271,6 +271,7 @@ func Generate(r *rand.Rand, workload string) *Model {
 				continue
 			}
 			g.directives(f)
+			g.nearMisses(f)
 			g.imports(f)
 			g.comments(f)
 		}
@@ -533,20 +534,50 @@ func (g *gen) directives(f *MFile) {
 	for _, s := range f.sides() {
 		e := s.Ent
 		oneSided := e.Origin != oBoth && e.Dir == dirNone
+		// a linknamed function may also be the original that an overlay replaces or purges, or
+		// the overlay that replaces an original
+		linkable := oneSided || (e.Origin == oBoth && s.Kind == e.S[sideOrig].Kind && s.Kind == e.S[sideOver].Kind &&
+			((s.Side == sideOrig && (e.Dir == dirNone || e.Dir == dirPurge)) || (s.Side == sideOver && e.Dir == dirNone)))
 		switch {
-		case s.Kind == "func" && e.Name != "init" && oneSided && r.Intn(100) < 12:
+		case s.Kind == "func" && e.Name != "init" && linkable && r.Intn(100) < 15:
 			s.Linkname, s.NoBody, s.Doc = true, true, nil
 			if s.Sig.NT > 0 { // a generic function cannot lack a body
 				s.Sig = g.sig(false)
 			}
 			if f.imp("unsafe") == nil {
-				f.Imports = append(f.Imports, &MImport{Path: "unsafe", Form: "blank"})
+				// "default" survives only if some declaration of the file really uses it
+				f.Imports = append(f.Imports, &MImport{Path: "unsafe", Form: []string{"blank", "default"}[r.Intn(2)]})
 			}
-		case s.Kind == "var" && e.Name != "_" && oneSided && len(s.spec.Sides) == 1 && !s.NoValue && r.Intn(100) < 8:
+		case s.Kind == "var" && e.Name != "_" && oneSided && len(s.spec.Sides) == 1 && !s.NoValue && r.Intn(100) < 10:
 			s.Embed, s.Typed = true, false
 			if f.imp("embed") == nil {
-				f.Imports = append(f.Imports, &MImport{Path: "embed", Form: "blank"})
+				f.Imports = append(f.Imports, &MImport{Path: "embed", Form: []string{"blank", "default"}[r.Intn(2)]})
 			}
+		}
+	}
+}
+
+// nearMiss: comments that look like a directive but are not one of the three documented ones.
+var nearMiss = []string{"// gopherjs:purge", "//gopherjs:purged", "//gopherjs:keep", "//gopherjs:keep-originals", "//gopherjs:override", "//gopherjs:override-signatures", "//gopherjs: purge"}
+
+func (g *gen) nearMisses(f *MFile) {
+	r := g.r
+	for _, d := range f.Decls {
+		line := nearMiss[r.Intn(len(nearMiss))]
+		if r.Intn(100) >= 7 {
+			continue
+		}
+		switch {
+		case d.Tok == "func":
+			s := d.Specs[0].Sides[0]
+			if !s.Linkname {
+				s.Doc = append(s.Doc, line)
+			}
+		case d.Paren && r.Intn(2) == 0:
+			sp := d.Specs[r.Intn(len(d.Specs))]
+			sp.Doc = append(sp.Doc, line)
+		default:
+			d.Doc = append(d.Doc, line)
 		}
 	}
 }
